@@ -116,12 +116,14 @@ def displaced(case, crys, sl, jn):
         return None
     Linv = np.linalg.inv(L)
     newbasis = [[np.array(u) for u in sp] for sp in crys.basis]
+    delta = [np.zeros(crys.dim) for _ in crys.basis[chem]]   # Cartesian displacement applied to every site of the species
     for op in ops:
         tgt = op[2][idx[i0]]
         k = idx.index(tgt)
-        newbasis[chem][k] = np.array(crys.basis[chem][k]) + Linv @ (geom.cartrot(L, op[0]) @ dcart)
+        delta[k] = geom.cartrot(L, op[0]) @ dcart
+        newbasis[chem][k] = np.array(crys.basis[chem][k]) + Linv @ delta[k]
     c2 = crystal.Crystal(np.array(crys.lattice), newbasis, chemistry=list(crys.chemistry), noreduce=True)
-    return c2, float(np.linalg.norm(dcart))
+    return c2, float(np.linalg.norm(dcart)), delta
 
 
 def check(case):
@@ -154,17 +156,18 @@ def check(case):
             out = displaced(case, crys, sl, jn)
             if out is None:
                 return {"classes": classes + ["e_not_applicable"], "nontrivial": False}
-            c2, amp = out
+            c2, amp, delta = out
             if len(c2.G) != len(crys.G) or c2.N != crys.N:
                 return {"classes": classes + ["e_symmetry_changed_discarded"], "nontrivial": False}
             chem = case["chem"]
-            jn2 = []
-            for jl in jn:
-                new = []
+            # same (i, j, cell) topology: every jump vector changes by the difference of the two site displacements
+            # (the constructor may wrap a displaced site back into the cell; that is a relabelling of the cell only)
+            jn2 = [[((i, j), dx + delta[j] - delta[i]) for (i, j), dx in jl] for jl in jn]
+            for jl in jn2:
                 for (i, j), dx in jl:
-                    R = np.round(crys.invlatt @ dx - crys.basis[chem][j] + crys.basis[chem][i])
-                    new.append(((i, j), c2.lattice @ (R + c2.basis[chem][j] - c2.basis[chem][i])))
-                jn2.append(new)
+                    u = c2.invlatt @ dx - c2.basis[chem][j] + c2.basis[chem][i]
+                    if np.abs(u - np.round(u)).max() > 1e-8:
+                        raise HarnessError("displaced jump vector does not connect sites of the displaced crystal")
             diff2 = OnsagerCalc.Interstitial(c2, chem, sl, jn2)
             D2 = diff2.diffusivity(pre, ene, preT, eneT)
             # physical displacement changes D through the jump vectors; the statement is about connectivity and rates only for
